@@ -1,6 +1,6 @@
 (* C03 — executable comparison functions used by the generated cases files (no proofs). *)
 From Coq Require Import List NArith ZArith Bool.
-From Dae Require Import C03_Spec C03_Model.
+From Dae Require Import C03_Spec C03_Model C03_JanSpec C03_JanModel.
 From Dae.gen Require Import C03_Consts.
 Import ListNotations.
 Open Scope N_scope.
@@ -260,3 +260,21 @@ Fixpoint sig_steps (P : param) (steps : list obs_step) (st : kstate) (acc : N) (
   end.
 Definition case_signature (c : obs_case) : N * N * N :=
   let '(a, t) := sig_steps (oc_param c) (oc_steps c) (mk_ks [] []) 0 0 in (a, t, N.of_nat (length (oc_steps c))).
+
+(* ---------- janitor sweeps ---------- *)
+Record obs_jan := { oj_sample : N; oj_aggr : bool; oj_stale : N; oj_entries : list (fkey * cstate); oj_sel : list bool }.
+Fixpoint bools_eqb (a b : list bool) : bool :=
+  match a, b with [], [] => true | x :: a', y :: b' => Bool.eqb x y && bools_eqb a' b' | _, _ => false end.
+(* codes: 1 impl<>model  2 impl<>spec (an ordinary sweep removes exactly the entries idle beyond their timeout at the
+   sample, as integers)  3 model<>spec *)
+Definition check_jan (c : obs_jan) : list N :=
+  let m := map (fun kv => jan_code_selected (oj_aggr c) (oj_stale c) (oj_sample c) (fst kv) (snd kv)) (oj_entries c) in
+  let sp := map (fun kv => spec_jan_removes (oj_sample c) (fst kv) (cs_state (snd kv) =? 1) (cs_last (snd kv))) (oj_entries c) in
+  let ordinary := negb (oj_aggr c) && (oj_stale c =? 0) in
+  (if bools_eqb m (oj_sel c) then [] else [1]) ++
+  (if ordinary && negb (bools_eqb (oj_sel c) sp) then [2] else []) ++
+  (if ordinary && negb (bools_eqb m sp) then [3] else []).
+Definition jan_signature (c : obs_jan) : N :=
+  let sel := N.of_nat (length (filter (fun b => b) (oj_sel c))) in
+  let ahead := N.of_nat (length (filter (fun kv => oj_sample c <? cs_last (snd kv)) (oj_entries c))) in
+  sel * 1000 + ahead * 10 + (if oj_aggr c then 2 else 0) + (if oj_stale c =? 0 then 0 else 1).
